@@ -141,7 +141,7 @@ def run_check(prop, tier, seed, replay=None):
     for b in broken:
         bad_decls.setdefault((b['file'], b['decl']), b)
     props_file = f'CopVerif/Props/{prop}.lean'
-    upstream_broken = [b for b in broken if b['file'] != props_file]
+    upstream_broken = [b for b in broken if b['file'] != props_file or b['decl'] not in names]
     for b in {(b['file'], b['decl']): b for b in upstream_broken}.values():
         ctx.ob(f'{b["file"]}:{b["decl"]}', False, 'lean', f'line {b["line"]}: {b["message"]}')
     for n in names:
